@@ -82,7 +82,7 @@ Proof. intros s. apply skip_while_len. Qed.
 Lemma part_step_progress : forall c num r nt c2 r2 nt2,
   cur c <> 0 -> part_step c num r nt = Some (c2, r2, nt2) -> (length c2 < length c)%nat.
 Proof.
-  intros c num r nt c2 r2 nt2 Hc H. unfold part_step in H.
+  intros c num r nt c2 r2 nt2 Hc H. unfold part_step, part_body in H.
   (* sign *)
   set (sgn := (cur c =? 43) || (cur c =? 45)) in *.
   assert (Hadv : (length (skip_space (adv c)) < length c)%nat).
